@@ -59,3 +59,10 @@ CLAIMED["C14"] = (
     "re-interpretation of any byte shows, checks ExactOrRefused and that the former 'len as u8' behaviour violates it; each case is presented at the client's real doors "
     "(SOCKS5 request, HTTP request line, CONNECT, local UDP datagram) and every admitted address goes through the real encode/length/try_decode_at/decode of its style with a tail.",
     TB, "5.14")
+CLAIMED["C06"] = (
+    "model_checking", "TLA+ Auth model (configuration x attacker knowledge x message form, TLC exhaustive), every case built with the reference codec and judged by the real server codecs; reply key identified by the reference opener",
+    "TLC enumerates every (server configuration, server-level secret the peer knows, user-level secret, message form), checks NoEmitWithoutCredential / CredentialAccepted / "
+    "NoCrossUser and that four named deviations violate them; each case is built from exactly those keys with the reference codec (wrong key, one bit different, other registered "
+    "user, unregistered, other protocol's valid handshake, random, truncated) for every cipher and presented to the real TCP and UDP server codecs; for accepted sessions the real "
+    "server's answer is opened under every candidate key to see whose it is.",
+    TB + "; reference codec builds the attacker's messages", "5.6")
